@@ -150,18 +150,83 @@ def add_dyn(tr, repo: Path, spec: dict) -> None:
     emit_dyn(tr, ctors)
 
 
-def add_foreign_dyn(tr, spec: dict) -> None:
+def tuple_class_fields(d: ast.ClassDef, any_names: set[str]) -> list:
+    """`class C(tuple[..]): __slots__ = (); def __new__(cls, a: A, b: B) -> Self: return tuple.__new__(cls, (a, b))` and one
+    property per parameter returning self[i]: a tuple with named items, like a NamedTuple -- the fields, in order."""
+    if len(d.bases) != 1 or not ast.unparse(d.bases[0]).startswith("tuple["):
+        bad(d, f"{d.name}: a subclass of tuple[..] is expected")
+    body = [st for st in d.body if not (isinstance(st, ast.Expr) and isinstance(st.value, ast.Constant))]
+    if not body or ast.unparse(body[0]) != "__slots__ = ()":
+        bad(d, f"{d.name}: __slots__ = () expected (no state besides the tuple)")
+    new = next((m for m in body if isinstance(m, ast.FunctionDef) and m.name == "__new__"), None)
+    if new is None:
+        bad(d, f"{d.name}: no __new__")
+    a = new.args
+    if a.vararg or a.kwarg or a.kwonlyargs or a.posonlyargs or a.defaults or not a.args or a.args[0].arg != "cls":
+        bad(new, f"{d.name}.__new__: parameter kinds")
+    params = [x.arg for x in a.args[1:]]
+    nb = [st for st in new.body if not (isinstance(st, ast.Expr) and isinstance(st.value, ast.Constant))]
+    if len(nb) != 1 or ast.unparse(nb[0]) != f"return tuple.__new__(cls, ({', '.join(params)}{',' if len(params) == 1 else ''}))":
+        bad(new, f"{d.name}.__new__ does more than make the tuple of its parameters")
+    props = [m for m in body[1:] if m is not new]
+    if len(props) != len(params):
+        bad(d, f"{d.name}: one property per item expected")
+    for i, (pn, m) in enumerate(zip(params, props)):
+        mb = [st for st in m.body if not (isinstance(st, ast.Expr) and isinstance(st.value, ast.Constant))] if isinstance(m, ast.FunctionDef) else []
+        if not (isinstance(m, ast.FunctionDef) and m.name == pn and [ast.unparse(x) for x in m.decorator_list] == ["property"]
+                and len(mb) == 1 and ast.unparse(mb[0]) == f"return self[{i}]"):
+            bad(m, f"{d.name}: property {pn} returning self[{i}] expected")
+    fs = []
+    for x in a.args[1:]:
+        t = ast.unparse(x.annotation)
+        if t == "str":
+            fs.append((x.arg, "str", False))
+        elif t in any_names or t.split(".")[-1] in any_names:
+            fs.append((x.arg, "any", False))
+        else:
+            bad(x, f"{d.name}: item type {t}")
+    return fs
+
+
+# what rdflib.Literal(lex, lang=.., datatype=.., normalize=False) does with its arguments (rdflib/term.py, Literal.__new__) -- SPECIFIED:
+# an empty tag is no tag; a tag and a datatype: TypeError; a tag that is not well-formed: ValueError; the lexical form of an
+# xsd:token / xsd:normalizedString literal rewritten (str_rdflib_lex).  The same account as model/Decoder.v mk_literal.
+RDFLIB_LITERAL = """Definition rdflib_Literal (lex : K) (lang dt : option K) : outcome obj :=
+let lang' := match lang with Some l => if str_is_empty l then None else Some l | None => None end in
+match lang', dt with
+| Some _, Some _ => Exn TypeError
+| Some t, None => if str_langtag_ok t then Val (O_Literal lex lang' None) else Exn ValueError
+| None, _ => Val (O_Literal (str_rdflib_lex dt lex) None dt)
+end."""
+
+
+def add_foreign_dyn(tr, spec: dict, repo: Path | None = None) -> None:
     """The objects of a library the unit does not translate (rdflib's URIRef, BNode, Literal), as the unit's dynamic values:
     what they are is SPECIFIED here (spec["classes"]: class -> stored values; spec["eq_lower"]: fields compared after
     lower(); spec["str"]: class -> the field str(x) gives), not read from source.  Trusted like PyPrims.v; compared with
-    the real library by harness/primcheck.py."""
+    the real library by harness/primcheck.py.  spec["tuple_classes"]: classes of the unit's own source file that are tuples
+    with named items (read from the source, shape checked)."""
     ctors = {c: [(f, (tuple(t) if isinstance(t, list) else t), False) for f, t in fs] for c, fs in spec["classes"].items()}
+    py2v.NAMEDTUPLE_DYN.clear()
+    any_names = set(ctors) | set(spec.get("any_names", ()))
+    if spec.get("tuple_classes"):
+        mod = ast.parse((repo / spec["tuple_src"]).read_text())
+        defs = {n.name: n for n in mod.body if isinstance(n, ast.ClassDef)}
+        for c in spec["tuple_classes"]:
+            if c not in defs:
+                bad(None, f"{spec['tuple_src']} no longer defines {c}")
+            ctors[c] = tuple_class_fields(defs[c], any_names)
+            py2v.NAMEDTUPLE_DYN.add(c)
     py2v.DYN.clear()
     py2v.DYN.update(ctors)
     py2v.DYN_SINGLETONS.clear()
     py2v.DYN_ANY_NAMES.clear()
     py2v.DYN_ANY_NAMES.update(set(ctors) | set(spec.get("any_names", ())))
     emit_dyn(tr, ctors, lower={(c, f) for c, f in spec.get("eq_lower", ())}, str_fields=spec.get("str", {}))
+    for c, cs in spec.get("constructors", {}).items():
+        if cs["function"] != "rdflib_Literal" or c != "Literal" or [f for f, _, _ in ctors[c]] != ["lex", "language", "datatype"]:
+            bad(None, f"no specification of the constructor {c}")
+        tr.out.append(RDFLIB_LITERAL)
 
 
 def emit_dyn(tr, ctors: dict, lower: set = frozenset(), str_fields: dict | None = None) -> None:
